@@ -198,7 +198,6 @@ void accept_token(DString * d, token * t) {
 				break;
 			}
 
-		case CM_SUB_DIV:
 		case CM_DEL_PAIR:
 		case CM_COM_PAIR:
 			// Erase these
@@ -263,6 +262,12 @@ void reject_token_tree_sub(DString * d, token * t) {
 		t = t->prev;
 	}
 
+	if (t) {
+		// The divider of this substitution
+		d_string_erase(d, t->start, t->len);
+		t = t->prev;
+	}
+
 	while (t) {
 
 		reject_token(d, t);
@@ -290,7 +295,6 @@ void reject_token(DString * d, token * t) {
 				break;
 			}
 
-		case CM_SUB_DIV:
 		case CM_ADD_PAIR:
 		case CM_COM_PAIR:
 			// Erase these
